@@ -55,6 +55,8 @@ THEOREM_NOTES = {
                                     "initialisation(input with f := x)) are proved for every list of trial values; repricing within L*delta is "
                                     "proved only UNDER BrentSpec + Lipschitz; existence of a root, brentq, the Lipschitz constant and the COS "
                                     "price are not proved",
+    "C20_construct_iff": "must-succeed direction: Built <-> valid && defined (ValueError / ZeroDivisionError characterised likewise); closes the "
+                         "gap that the sync theorem is an implication from Built",
     "C20_calibration_classes": "objective independent of earlier trial values; returned parameters = direct construction (sync with one assignment)",
     "C20_init_eq_reinit": "about the two py2coq translations (from __init__ and from initialisation) of the current source; reflexivity because "
                           "the two source expressions are currently identical -- an edit of one of them breaks the proof",
@@ -78,7 +80,7 @@ def _classes():
     pos, spos = (lambda x: x >= 0), (lambda x: x > 0)
     CLASSES.update({
         "hem": dict(cls=HEMParameters, model=ExponentialOfHEMModel, prim=["sigma", "p", "eta1", "eta2", "intensity"], der=["_xi"],
-                    pred=dict(sigma=pos, p=spos, eta1=spos, eta2=spos, intensity=pos),
+                    pred=dict(sigma=pos, p=(lambda x: 0 <= x <= 1), eta1=spos, eta2=spos, intensity=pos),
                     ctor=["HSigma", "HP", "HEta1", "HEta2", "HIntensity", "HXi"]),
         "merton": dict(cls=MertonParameters, model=ExponentialOfMertonModel, prim=["sigma", "mu_j", "sigma_j", "intensity"], der=[],
                        pred=dict(sigma=pos, mu_j=pos, sigma_j=spos, intensity=pos),
@@ -116,7 +118,7 @@ def _valid(rng, name, f, exact):
             return _dy(rng, 0, 1)
         return {"sigma": _dy(rng, 0, 1), "mu_j": _dy(rng, 0, 1), "sigma_j": _dy(rng, 0.125, 1, 4) or 0.25, "intensity": _dy(rng, 0, 8)}[f]
     table = {
-        "hem": {"sigma": (0.0, 0.8), "p": (0.01, 1.5), "eta1": (1.05, 60.0), "eta2": (0.05, 60.0), "intensity": (0.0, 10.0)},
+        "hem": {"sigma": (0.0, 0.8), "p": (0.0, 1.0), "eta1": (1.05, 60.0), "eta2": (0.05, 60.0), "intensity": (0.0, 10.0)},
         "merton": {"sigma": (0.0, 0.8), "mu_j": (0.0, 0.5), "sigma_j": (0.01, 0.5), "intensity": (0.0, 10.0)},
         "vg": {"sigma": (0.02, 0.8), "nu": (0.01, 2.0), "theta": (-0.5, 0.5)},
         "cgmy": {"c": (0.01, 10.0), "g": (0.5, 40.0), "m": (0.5, 40.0), "y": (-1.5, 1.95)},
@@ -133,6 +135,8 @@ def _invalid(rng, name, f):
         return None
     if name == "cgmy" and f == "y":
         return rng.choice([2.0, 2.5, 2.0 + 2 ** -40, 17.0])
+    if name == "hem" and f == "p":          # between(0, 1), end points included
+        return rng.choice([-0.25, -2 ** -30, 1.0 + 2 ** -40, 1.5, rng.uniform(1.001, 5.0)])
     strict = not pred(0.0)
     return rng.choice(([0.0] if strict else []) + [-1.0, -2 ** -30, -0.25, -rng.uniform(0.001, 5.0)])
 
@@ -271,6 +275,8 @@ def _history_cases(res, rng, n_per_class, viol):
                         v = rng.choice([0.0, -0.5])
                     if name == "hem" and f == "eta1":
                         v = 1.0
+                    if name == "hem" and f == "p":
+                        v = rng.choice([0.0, 1.0])
                 else:
                     v = _valid(rng, name, f, exact)
                 before = dict(obj.__dict__)
